@@ -22,6 +22,7 @@ FUNCTIONS = [
     "GeckoPartialStatusBlockProtocolHandler.handle / GeckoAsyncPartialStatusBlockProtocolHandler.async_handle (STATQ)",
     "GeckoWaterCare.set_mode/update, GeckoReminders.update (threaded facade)",
     "GeckoPacketProtocolHandler.send_bytes and every request() constructor",
+    "GeckoAsyncUdpProtocol.get (retry loop; numbers handed out while replies are lost)",
 ]
 BOUNDS = {"counter pre-state": "protocol 0..191, command 191..255 (the invariant; initial state included)",
           "histories": "unbounded by induction over one step", "threads": "lock discipline only (see assumptions)"}
@@ -445,6 +446,57 @@ def long_run(make):
     return scenario
 
 
+def handouts_under_loss(sx):
+    """API-level: everything the real `GeckoAsyncUdpProtocol.get` retry loop and an outside party (a STATQ
+    ack, another task) draw from one connection, with replies lost per attempt, is one unbroken cycle per
+    kind - no request engine bookkeeping may rewind or skip a counter (round-7 seeded change)."""
+    from sx.vloop import patched_time
+    from geckolib.driver import GeckoVersionProtocolHandler
+    from . import c06
+    env = c06.Env()
+    try:
+        with patched_time(env.loop):
+            proto = env.proto
+            log = []
+            real = proto.get_and_increment_sequence_counter
+
+            def logged(command=False, *a, **kw):
+                r = real(command, *a, **kw)
+                log.append((bool(command), r))
+                return r
+            proto.get_and_increment_sequence_counter = logged
+            p0 = sx.int_("protocol_counter", 0, 191)
+            c0 = sx.int_("command_counter", 191, 255)
+            proto._sequence_counter_protocol = p0
+            proto._sequence_counter_command = c0
+            R = 2 + sx.choice("retry_count", 2)
+            kind = bool(sx.choice("request_is_command", 2))
+
+            def create():
+                return GeckoVersionProtocolHandler.request(proto.get_and_increment_sequence_counter(kind), parms=c06.PARMS)
+
+            def on_send(data):
+                a = len(env.tr.sent) - 1
+                if a > R:
+                    sx.assume(False)
+                c = sx.choice(f"attempt{a}_outside_draw", 3)      # nothing / protocol number / command number
+                if c:
+                    env.loop.call_later(0.07, proto.get_and_increment_sequence_counter, c == 2)
+                if sx.choice(f"attempt{a}_answered", 2):
+                    env.loop.call_later(0.12, proto.datagram_received, c06.KINDS[0][2], c06.PARMS)
+            env.on_send = on_send
+            env.loop.run_until_complete(proto.get(create, None, R), max_time=100.0)
+            after = [(False, proto.get_and_increment_sequence_counter(False)), (True, proto.get_and_increment_sequence_counter(True))]
+            sx.observe("handed_out", list(log))
+            from sx.core import And
+            for k, pre, lo, hi in ((False, p0, 0, 191), (True, c0, 191, 255)):
+                vals = [pre] + [v for kk, v in log if kk == k]
+                ok = And(*[_succ_ok(a, b, lo, hi) for a, b in zip(vals, vals[1:])])
+                sx.check(ok, "ctr.api.handouts-form-one-cycle-under-retries", lambda: f"command={k}: {vals}")
+    finally:
+        env.close()
+
+
 def units(tier):
     THREE[0] = tier != "quick"
     for nm, mk in (("async-protocol", _mk_async_proto), ("threaded-socket", _mk_socket)):
@@ -452,6 +504,7 @@ def units(tier):
         yield Unit(f"long-run.{nm}", long_run(mk), validate=False)
     yield Unit("step.async-protocol", _counter_step(_mk_async_proto))
     yield Unit("step.threaded-socket", _counter_step(_mk_socket))
+    yield Unit("handouts.async-get-under-loss", handouts_under_loss)
     yield Unit("lock.threaded-socket", lock_discipline)
     yield Unit("lock.interleaved-threads", interleaved_threads)
     for k in ASYNC_KINDS:
